@@ -378,10 +378,13 @@ parse_next_record_header:
             padLen++;
             p--;
         }
-        if (p == decryptTo)
+        if (*p == 0 ||
+            (p == decryptTo && *p != SSL_RECORD_TYPE_APPLICATION_DATA))
         {
             /* If receiver finds no non-zero octets, it MUST terminate
-               the connection with an "unexpected_message" alert. */
+               the connection with an "unexpected_message" alert.
+               A content type octet right at the start is an empty
+               fragment: legal for application data only (RFC 8446, 5.1). */
             ssl->err = SSL_ALERT_UNEXPECTED_MESSAGE;
             goto encodeResponse;
         }
